@@ -319,6 +319,29 @@ class Source:
             span = self._find1(seg, span)
         return span
 
+    def find_expr(self, pattern, within=None):
+        """Statement/expression-level slice: `pattern` is a whitespace-separated token sequence (e.g.
+        "match SHIFT_AMOUNTS . get ( & ch )"); returns the span from its first token to the matching '}' of the
+        first '{' that follows at nesting depth 0 (a match / if / for / while / block expression)."""
+        span = within or self.whole()
+        want = pattern.split()
+        code = self.tokens_in(span.start, span.end)
+        for i in range(len(code) - len(want)):
+            if all(code[i + k].text == w for k, w in enumerate(want)):
+                j = i + len(want)
+                while j < len(code):
+                    t = code[j]
+                    if t.kind == "punct" and t.text in ("(", "["):
+                        close = self.match_close(t.start)
+                        while code[j].start < close:
+                            j += 1
+                    elif t.kind == "punct" and t.text == "{":
+                        return Span(self, code[i].start, self.match_close(t.start) + 1, span.name + "::expr(" + pattern + ")")
+                    elif t.kind == "punct" and t.text == ";":
+                        break
+                    j += 1
+        raise SliceError("expression '%s' not found in %s" % (pattern, span.name or self.path))
+
     def find_all(self, seg, within=None):
         span = within or self.whole()
         out = []
